@@ -123,10 +123,11 @@ func cnLifecycleOracle(res *cnResult, max int) (string, map[string]interface{}) 
 				return "impl_ne_spec", map[string]interface{}{"what": "more live subscriptions than the limit", "seq": e.Seq}
 			}
 		case "U":
-			if open[e.ID] > 0 {
-				open[e.ID]--
-				totalOpen--
+			if open[e.ID] == 0 {
+				return "impl_ne_spec", map[string]interface{}{"what": "the logger saw Unsubscribe(" + e.ID + ") without a Subscribe it belongs to", "seq": e.Seq}
 			}
+			open[e.ID]--
+			totalOpen--
 			ended[e.ID] = true
 		case "hook:mut.accept":
 			ended[e.ID] = false
@@ -227,9 +228,10 @@ func c17One(c *Ctx, m *Model, cs cnCase) {
 		return
 	}
 	st := resp["state"].(map[string]interface{})
-	// logger calls: the model's log, projected to (kind, id), must be what the real logger saw
+	// logger calls: what the model's logger is told (`seen`: subscriptions only), projected to (kind, id), must be
+	// what the real logger saw
 	var want []string
-	for _, x := range st["log"].([]interface{}) {
+	for _, x := range st["seen"].([]interface{}) {
 		xm := x.(map[string]interface{})
 		want = append(want, fmt.Sprintf("%s%d", xm["e"], toInt64(xm["id"])))
 	}
